@@ -89,7 +89,8 @@ pub struct Case {
     /// a call made before the observed one: (operation, whether its handler fails)
     pub prefix: Option<(FeOp, bool)>,
     /// negotiation order: 0 = GET/SET_FEATURES then GET/SET_PROTOCOL_FEATURES; 1 = protocol
-    /// features negotiated before any SET_FEATURES (QEMU's order); 2 = SET_FEATURES without bit 30
+    /// features negotiated before any SET_FEATURES (QEMU's order); 2 = SET_FEATURES without bit 30;
+    /// 3 = like 1 but SET_PROTOCOL_FEATURES without a preceding GET_PROTOCOL_FEATURES
     pub nego: u8,
 }
 
@@ -120,7 +121,10 @@ pub fn run_case(c: &Case, rep: &mut Report) {
                     p.fe.set_features(f & !spec::VIRTIO_F_PROTOCOL_FEATURES).map_err(|e| format!("{e:?}"))?;
                     p.server.drain();
                 }
-                p.fe.get_protocol_features().map_err(|e| format!("{e:?}"))?;
+                // order 3: a saved negotiation is restored (e.g. after a reconnect) without asking again
+                if n != 3 {
+                    p.fe.get_protocol_features().map_err(|e| format!("{e:?}"))?;
+                }
                 p.fe.set_protocol_features(VhostUserProtocolFeatures::from_bits_retain(ack)).map_err(|e| format!("{e:?}"))?;
                 p.server.drain();
                 Ok(())
@@ -298,12 +302,12 @@ pub fn run(rep: &mut Report) {
         for out in outs {
             for reply_ack in [false, true] {
                 for need_reply in [false, true] {
-                    for (pi, nego) in prefixes.iter().flat_map(|p| [0u8, 1, 2].into_iter().map(move |n| (p, n))) {
+                    for (pi, nego) in prefixes.iter().flat_map(|p| [0u8, 1, 2, 3].into_iter().map(move |n| (p, n))) {
                         // other negotiation orders: only without a prefix or with the basic one
                         if nego != 0 && !matches!(pi, None | Some((FeOp::SetVringNum(..), false))) {
                             continue;
                         }
-                        if nego == 2 && pi.is_some() {
+                        if nego >= 2 && pi.is_some() {
                             continue;
                         }
                         // without bit 30 acknowledged the frontend refuses ring enabling locally
@@ -323,7 +327,7 @@ pub fn run(rep: &mut Report) {
     }
     rep.states = rep.outcomes.len() as u64;
     rep.exhaustive = true;
-    rep.rule = "every reply-bearing and every acknowledged frontend operation x scripted handler outcome (success values incl. 0/max patterns, with/without returned file, Err, wrong-length config data) x REPLY_ACK negotiated or not x NEED_REPLY on/off x position {first call, after a succeeding call, after a failing call: a reply-bearing, an acknowledged and a config operation at quick, every operation at thorough} x three negotiation orders; after a failed request the session is closed and the next call must report that instead of waiting or succeeding; non-trivial = the outcome was observable at the caller (value delivered or failure reported)".into();
+    rep.rule = "every reply-bearing and every acknowledged frontend operation x scripted handler outcome (success values incl. 0/max patterns, with/without returned file, Err, wrong-length config data) x REPLY_ACK negotiated or not x NEED_REPLY on/off x position {first call, after a succeeding call, after a failing call: a reply-bearing, an acknowledged and a config operation at quick, every operation at thorough} x four negotiation orders (incl. SET_PROTOCOL_FEATURES without a preceding GET_PROTOCOL_FEATURES); after a failed request the session is closed and the next call must report that instead of waiting or succeeding; non-trivial = the outcome was observable at the caller (value delivered or failure reported)".into();
     rep.assumptions.push("server side behaves like the daemon thread: serves while handle_request returns Ok, shuts the connection down on Err".into());
 }
 
